@@ -388,14 +388,21 @@ def split_histories(ops, is_start):
     return hs
 
 
-def ddmin(items, fails):
-    """Delta debugging: a minimal sublist (order kept) on which fails(sublist) is still true."""
+def ddmin(items, fails, budget_s=90, max_evals=400):
+    """Delta debugging: a minimal sublist (order kept) on which fails(sublist) is still true.  Shrinking is a courtesy to the reader
+    of the replay, not part of the verdict: it stops after `budget_s` seconds or `max_evals` re-runs with what it has by then (a
+    failing history of thousands of operations would otherwise be re-run thousands of times)."""
+    import time as _time
     items = list(items)
     n = 2
+    t0, evals = _time.time(), 0
     while len(items) >= 2:
         chunk = max(1, len(items) // n)
         reduced = False
         for i in range(0, len(items), chunk):
+            if _time.time() - t0 > budget_s or evals >= max_evals:
+                return items
+            evals += 1
             cand = items[:i] + items[i + chunk:]
             if cand and fails(cand):
                 items = cand
